@@ -62,6 +62,7 @@ def _store_clause(ex):
 contract(Contract(
     target=M + ":rewrite_text_across_inlines.<locals>.transformer",
     props=["C04", "C08", "C12"],
+    assumes=['the rewrite function is length-preserving (smart_quotes: relation Q, discharged for the callback, lifted by the unchecked congruence lemma)', '_collect_inline_segments by its own contract (discharged separately)', 'Marko element records: children of RawText / CodeSpan / Literal / InlineHTML is a str'],
     params={"element": "ref:Element"},
     free={"rewrite_func": "callable"},
     heap={"RawTextEl.children": "str"},
@@ -130,6 +131,7 @@ def _segments_ok(ex, lst):
 contract(Contract(
     target=M + ":_collect_inline_segments",
     props=["C04", "C08", "C09", "C12"],
+    assumes=['Marko element records: children of RawText / CodeSpan / Literal / InlineHTML is a str; every element has a children attribute', "recursive calls by the function's own contract (partial correctness; termination by the finite tree)"],
     params={"element": "ref:Element"},
     heap={"RawTextEl.children": "str"},
     types={"segments": "list[tuple[str,nref:RawTextEl]]", "child": "ref:Element", "children": "list[ref:Element]"},
